@@ -63,24 +63,33 @@ def lineOkY (c : Ctx) (ln : PlusLine) : Bool := ln.any (optOkY c)
 /-- buildOk: AND over all recognised lines of all comment groups -/
 def linesOkY (c : Ctx) (lns : List PlusLine) : Bool := lns.all (lineOkY c)
 
-/-! ### file-name rule (skipFile), on the `_`-separated elements of the base name -/
+/-! ### file-name rule (skipFile), on the `_`-separated elements of the name cut at its first dot -/
 
-def isTestName (elems : List String) : Bool :=
-  decide (2 ≤ elems.length) && elems.getLast? == some "test"
+/-- matchOsArch: is an OS / architecture word of a file name satisfied by the context -/
+def matchOsArchY (c : Ctx) (name : String) : Bool :=
+  name == c.goos || name == c.goarch ||
+  (c.goos == "android" && name == "linux") ||
+  (c.goos == "illumos" && name == "solaris") ||
+  (c.goos == "ios" && name == "darwin") ||
+  c.tags.contains name
 
 /-- the decision of skipFile once the name is known to end in `.go`, not to start with `_`/`.`:
-    `elems` = base name without `.go`, split on `_` (so `elems ≠ []`). `true` = skip. -/
-def skipElemsY (k : Known) (c : Ctx) (elems : List String) (skipTest : Bool) : Bool :=
-  if skipTest && isTestName elems then true
-  else match elems.tail.reverse with
+    `isTest` = the base name (without `.go`) ends in `_test`; `elems` = the name cut at its first
+    dot, split on `_` (so `elems ≠ []`). `true` = skip. -/
+def skipElemsY (k : Known) (c : Ctx) (isTest : Bool) (elems : List String) (skipTest : Bool) : Bool :=
+  if skipTest && isTest then true
+  else match elems.tail with
     | [] => false                                   -- no `_` in the name
-    | [x] => (k.os.contains x && x != c.goos) || (k.arch.contains x && x != c.goarch)
-    | y :: x :: _ =>
-      if x == c.goos then
-        (if k.arch.contains y then y != c.goarch else false)
-      else if k.os.contains x && k.arch.contains y then true
-      else if k.arch.contains y && y != c.goarch then true
-      else false
+    | tl =>
+      let l := "" :: tl
+      let l := if l.getLast? == some "test" then l.dropLast else l
+      match l.reverse with
+      | [] => false
+      | [y] => if k.os.contains y || k.arch.contains y then !matchOsArchY c y else false
+      | y :: x :: _ =>
+        if k.os.contains x && k.arch.contains y then !(matchOsArchY c y && matchOsArchY c x)
+        else if k.os.contains y || k.arch.contains y then !matchOsArchY c y
+        else false
 
 /-! ### raw layer -/
 
@@ -210,6 +219,8 @@ def skipFileRaw (k : Known) (c : Ctx) (p : List Char) (skipTest : Bool) : Bool :
     -- path.Base of "" or of a path ending in "/" is not produced by the callers (names come from ReadDir)
     let base := base.take (base.length - 3)
     if base.isEmpty || Str.hasPrefix ['_'] base || Str.hasPrefix ['.'] base then true
-    else skipElemsY k c ((Str.splitOn '_' base).map Str.s) skipTest
+    else
+      let stem := (Str.splitOn '.' base).headD []
+      skipElemsY k c (Str.hasSuffix "_test".toList base) ((Str.splitOn '_' stem).map Str.s) skipTest
 
 end YaegiVerif.Build
